@@ -17,8 +17,12 @@ CONSTANT IsProgram(_)
 VARIABLES prog, pc, ns, m, ok
 mvars == << prog, pc, ns, m, ok >>
 
-(* m: strict state [c, s : "on" | "off" (compression installed), wc, failed] *)
-M0 == [c |-> "off", s |-> "off", wc |-> [c |-> TRUE, s |-> TRUE], failed |-> FALSE]
+(* m: strict state [c, s : "on" | "off" (compression installed), wc, failed, *)
+(* ow: per side "none" (no writer open) | "on" | "off" (the compression     *)
+(* decision latched when the open writer was obtained), wn: Write calls on  *)
+(* the open writer]                                                         *)
+M0 == [c |-> "off", s |-> "off", wc |-> [c |-> TRUE, s |-> TRUE], failed |-> FALSE,
+       ow |-> [c |-> "none", s |-> "none"], wn |-> [c |-> 0, s |-> 0]]
 
 Init == IsProgram(prog) /\ pc = 0 /\ ns = N0 /\ m = M0 /\ ok = TRUE
 
@@ -37,14 +41,35 @@ DoHandshake ==
 
 Other(sd) == IF sd = "c" THEN "s" ELSE "c"
 
+(* canonical observation of a message written with the decision `cmp` *)
+MsgEv(sd, n, cmp) ==
+  [side |-> sd, n |-> n, rsv1 |-> cmp, wireok |-> TRUE,
+   recv |-> IF prog.mode = "pair" THEN (IF cmp /\ m[Other(sd)] = "off" THEN "err" ELSE "ok") ELSE "na",
+   werr |-> FALSE]
+
 DoStep ==
   /\ pc >= 1 /\ pc <= Len(prog.steps) /\ ~m.failed
   /\ LET st == prog.steps[pc] IN
      CASE st.op = "send" ->
-            LET ev == [side |-> st.side, n |-> 1, rsv1 |-> (m[st.side] = "on" /\ m.wc[st.side]), wireok |-> TRUE,
-                       recv |-> IF prog.mode = "pair" THEN (IF m[st.side] = "on" /\ m.wc[st.side] /\ m[Other(st.side)] = "off" THEN "err" ELSE "ok") ELSE "na",
-                       werr |-> FALSE]
-            IN ok' = (ok /\ SendAllowed(prog, ns, ev)) /\ ns' = AfterSend(ns, ev) /\ m' = m
+            \* a writer still open on this side is closed implicitly first (the decision latched at its NextWriter)
+            LET cev == [MsgEv(st.side, m.wn[st.side], m.ow[st.side] = "on") EXCEPT !.n = m.wn[st.side]] @@ [implicit |-> TRUE]
+                isop == m.ow[st.side] # "none"
+                ns1 == IF isop THEN AfterCls(ns, cev) ELSE ns
+                ev == MsgEv(st.side, 1, m[st.side] = "on" /\ m.wc[st.side])
+            IN /\ ok' = (ok /\ (isop => ClsAllowed(prog, ns, cev)) /\ SendAllowed(prog, ns1, ev))
+               /\ ns' = AfterSend(ns1, ev)
+               /\ m' = [m EXCEPT !.ow[st.side] = "none", !.wn[st.side] = 0]
+       [] st.op = "open" ->
+            LET ev == [side |-> st.side, err |-> FALSE] IN
+            /\ ok' = (ok /\ OpenAllowed(prog, ns, ev)) /\ ns' = AfterOpen(ns, ev)
+            /\ m' = [m EXCEPT !.ow[st.side] = On(m[st.side] = "on" /\ m.wc[st.side]), !.wn[st.side] = 0]
+       [] st.op = "wr" ->
+            LET ev == [side |-> st.side, n |-> 1, err |-> FALSE] IN
+            ok' = (ok /\ WrAllowed(prog, ns, ev)) /\ ns' = ns /\ m' = [m EXCEPT !.wn[st.side] = @ + 1]
+       [] st.op = "cls" ->
+            LET ev == MsgEv(st.side, m.wn[st.side], m.ow[st.side] = "on") @@ [implicit |-> FALSE] IN
+            /\ ok' = (ok /\ m.ow[st.side] # "none" /\ ClsAllowed(prog, ns, ev)) /\ ns' = AfterCls(ns, ev)
+            /\ m' = [m EXCEPT !.ow[st.side] = "none", !.wn[st.side] = 0]
        [] st.op = "feed" ->
             LET ev == [side |-> st.side, comp |-> st.comp, res |-> IF st.comp /\ m[st.side] = "off" THEN "err" ELSE "ok"]
             IN ok' = (ok /\ FeedAllowed(prog, ns, ev)) /\ ns' = AfterFeed(ns, ev) /\ m' = m
@@ -70,5 +95,10 @@ InvAgreement == (pc >= 1 /\ ~m.failed) => m.c = m.s
 InvOnlyIfBoth == (pc >= 1 /\ ~m.failed /\ (m.c = "on" \/ m.s = "on")) => PmdBoth(Extensions(StrictRespExt(prog)))
 
 (* a real pair enables compression exactly when both sides enabled it *)
+(* C15: a toggle inside an open message never changes how THAT message is  *)
+(* written: the decision was latched when the writer was obtained (so its  *)
+(* RSV1 bit and its payload encoding cannot disagree).                     *)
+InvLatched == \A sd \in {"c", "s"} : m.ow[sd] = "on" => m[sd] = "on"
+
 InvPair == (pc >= 1 /\ prog.mode = "pair") => (~m.failed /\ (m.c = "on") = (prog.dEn /\ prog.uEn))
 =============================================================================
